@@ -51,7 +51,7 @@ class Env:
         for t in range(NTYPES):
             out.append(("UT%d_type.is_type_undef()" % t, "bool:false" if t in self.types else "!ERR"))
             # the name table consulted by type("...") and by typed parameters is a structure of its own
-            out.append(("type(\"UT%d\").bare_equal(UT%d_type)" % (t, t), "bool:true" if t in self.types else "!ERR"))
+            out.append(("type(\"UT%d\").is_type_undef()" % t, "bool:false" if t in self.types else "!ERR"))
         for n in LOC:
             out.append((n, "int:%d" % locals_[n] if n in locals_ else "!ERR"))
         return out
